@@ -218,6 +218,16 @@ func genCut(c *hx.Ctx) []*scriptScn {
 				b := newBuilder("muxfault_cut", transport, 256, open[0], open[1])
 				b.s.Cut[side] = n
 				b.s.CutErr[side] = []string{"", "timeout", "", "temporary", "timeout"}[(variant+n)%5]
+				if transport == "unix" {
+					// a transient failure exactly between two Writes leaves the Mux alive and the exchange goes on:
+					// on a socket the final Close would then race with frames still unread in the peer's buffer
+					// (connection reset instead of end-of-file); those offsets get the transient kind on the pipe only
+					for _, bd := range bounds {
+						if bd == n {
+							b.s.CutErr[side] = ""
+						}
+					}
+				}
 				b.s.Note = fmt.Sprintf("base %d, %d bytes, cut at %d (%s), writer side %d, eager=%v", bi, total, n, b.s.CutErr[side], side, eager)
 				if eager {
 					for _, id := range bs.ids {
